@@ -42,7 +42,13 @@ type c16Env struct {
 	recv   []byte
 	ctx    context.Context
 	cancel context.CancelFunc
+	// runaway protection: no enumeration the property covers needs more than 6 x 256 requests; beyond the cap the
+	// caller's context is ended, and the executors report the non-termination as the verdict
+	reqs    int
+	runaway bool
 }
+
+const c16RequestCap = 4000
 
 // dispatch returns the response message, or nil = no reply (the caller's context expires)
 func c16NewEnv(dispatch func(netfn, cmd byte, data []byte) []byte) *c16Env {
@@ -50,6 +56,12 @@ func c16NewEnv(dispatch func(netfn, cmd byte, data []byte) []byte) *c16Env {
 	e.ctx, e.cancel = context.WithTimeout(context.Background(), 20*time.Second)
 	e.sim.dispatcher = dispatch
 	e.t = bmc.VerifNewV2SessionlessTransport(func(ctx context.Context, p []byte) ([]byte, error) {
+		e.reqs++
+		if e.reqs > c16RequestCap {
+			e.runaway = true
+			e.cancel()
+			return nil, errors.New("request cap reached")
+		}
 		r := e.sim.handle(p)
 		if r == nil {
 			e.cancel()
@@ -373,6 +385,9 @@ func execC16Suites(a []string) (string, string) {
 	var recs []ipmi.CipherSuiteRecord
 	var err error
 	returned, p := c16Call(func() { recs, err = bmc.RetrieveSupportedCipherSuites(e.ctx, e.t) })
+	if e.runaway {
+		return "runaway", fmt.Sprintf("the enumeration does not terminate: more than %d requests", c16RequestCap)
+	}
 	idxS := "idx=" + c16Ints(idx, ",", "-")
 	switch {
 	case !returned:
@@ -531,6 +546,9 @@ func execC16Dcmi(a []string) (string, string) {
 	var info *dcmi.SensorInfo
 	var err error
 	returned, p := c16Call(func() { info, err = dcmi.GetSensorInfo(e.ctx, c16Sess{c: e.t}) })
+	if e.runaway {
+		return "runaway", fmt.Sprintf("the enumeration does not terminate: more than %d requests (the last ones: %v)", c16RequestCap, log[len(log)-4:])
+	}
 	var rs []string
 	for _, r := range log {
 		rs = append(rs, fmt.Sprintf("%d:%d", r.entity, r.start))
